@@ -132,8 +132,13 @@ structure Block where
   data : Option (List UInt8)
 deriving Repr, DecidableEq
 
+/-- the wrapped allocator as the client sees it through `aws_mem_*`: live blocks with their
+*requested* sizes, and which optional vtable entries it implements (`mem_realloc`, `mem_calloc`;
+without them `aws_mem_realloc` / `aws_mem_calloc` emulate the call with acquire/release) -/
 structure Parent where
   blocks : List (Addr × Block)
+  hasRealloc : Bool := true
+  hasCalloc : Bool := true
 deriving Repr
 
 namespace Parent
@@ -145,24 +150,38 @@ def mkData (sz : Nat) (pre : List UInt8) (fillb : UInt8) : List UInt8 :=
 def fresh (sz : Nat) (pre : List UInt8) (fillb : UInt8) : Block :=
   if sz > bigLimit then { size := sz, cap := sz, data := none }
   else { size := sz, cap := if sz > smallCap then sz else smallCap, data := some (mkData sz pre fillb) }
-def release (p : Parent) (a : Addr) : Parent := { blocks := p.blocks.filter (fun e => e.1 != a) }
-def acquire (p : Parent) (a : Addr) (sz : Nat) : Parent := { blocks := (a, fresh sz [] junk) :: p.blocks }
-def calloc (p : Parent) (a : Addr) (n s : Nat) : Parent := { blocks := (a, fresh (n * s) [] 0) :: p.blocks }
+def release (p : Parent) (a : Addr) : Parent := { p with blocks := p.blocks.filter (fun e => e.1 != a) }
+def acquire (p : Parent) (a : Addr) (sz : Nat) : Parent := { p with blocks := (a, fresh sz [] junk) :: p.blocks }
+/-- `aws_mem_calloc(parent, n, s)`: native `mem_calloc`, or `mem_acquire` + `memset 0` — zeros either way -/
+def calloc (p : Parent) (a : Addr) (n s : Nat) : Parent := { p with blocks := (a, fresh (n * s) [] 0) :: p.blocks }
 def oldData (p : Parent) (a : Addr) : List UInt8 :=
   match p.get a with
   | some b => b.data.getD []
   | none => []
-/-- `realloc` of block `a` to `new` bytes, result at `dest` (`dest = a`: in place) -/
-def realloc (p : Parent) (a : Addr) (new : Nat) (dest : Addr) : Parent :=
+/-- `aws_mem_realloc(parent, &NULL, old, new)`: native realloc(NULL) acquires; the emulation acquires,
+copies nothing and zero-fills the whole block -/
+def reallocNull (p : Parent) (a : Addr) (new : Nat) : Parent :=
+  { p with blocks := (a, fresh new [] (if p.hasRealloc then junk else 0)) :: p.blocks }
+/-- is `dest` an answer `aws_mem_realloc(parent, &a, old, new)` can give?  A native `mem_realloc` may
+keep or move; the emulation keeps exactly when `old ≥ new` (it then does nothing at all) and
+otherwise acquires a new block -/
+def reallocOK (p : Parent) (a : Addr) (old new : Nat) (dest : Addr) : Bool :=
+  p.hasRealloc || (if old ≥ new then dest == a else dest != a)
+/-- `aws_mem_realloc(parent, &a, old, new)` with `new ≠ 0`, result at `dest` (`dest = a`: in place).
+Native: first `min` bytes kept, new bytes are junk.  Emulated, moving: `mem_acquire(new)`,
+`memcpy(old bytes)`, `memset(rest, 0)`, `mem_release(a)`; emulated, `old ≥ new`: the block is not touched,
+only the client's idea of its size changes. -/
+def realloc (p : Parent) (a : Addr) (old new : Nat) (dest : Addr) : Parent :=
   if dest = a then
     match p.get a with
-    | some b => { blocks := (a, { b with size := new, data := b.data.map (fun d => mkData new d junk) }) :: (p.release a).blocks }
+    | some b => { p with blocks := (a, { b with size := new, data := b.data.map (fun d => mkData new d junk) }) :: (p.release a).blocks }
     | none => p
-  else { blocks := (dest, fresh new (p.oldData a) junk) :: (p.release a).blocks }
+  else if p.hasRealloc then { p with blocks := (dest, fresh new (p.oldData a) junk) :: (p.release a).blocks }
+  else { p with blocks := (dest, fresh new ((p.oldData a).take old) 0) :: (p.release a).blocks }
 /-- the client writes a position-dependent pattern over its whole block -/
 def pattern (seed n : Nat) : List UInt8 := (List.range n).map (fun i => UInt8.ofNat (seed + 7 * i))
 def fill (p : Parent) (a : Addr) (seed : Nat) : Parent :=
-  { blocks := p.blocks.map (fun e =>
+  { p with blocks := p.blocks.map (fun e =>
       if e.1 == a then (e.1, { e.2 with data := e.2.data.map (fun _ => pattern seed e.2.size) }) else e) }
 end Parent
 
@@ -194,7 +213,7 @@ structure Seq where
   par : Parent
 deriving Repr
 
-def Seq.new (lvl : Level) (frames : Nat) (par : Parent := ⟨[]⟩) : Seq := { tr := Tracer.new lvl frames, par := par }
+def Seq.new (lvl : Level) (frames : Nat) (par : Parent := { blocks := [] }) : Seq := { tr := Tracer.new lvl frames, par := par }
 
 def freshAddr (par : Parent) (a : Addr) : Bool := a != 0 && !par.live a
 
@@ -212,7 +231,7 @@ def Seq.step (s : Seq) : Op → Seq × Ret
     if n = 0 ∨ sz = 0 ∨ n * sz ≥ W ∨ !freshAddr s.par dest then (s, .rejected)
     else ({ tr := track s.tr dest (n * sz % W) sid, par := s.par.calloc dest n sz }, .ptr dest)
   | .release p => s.release p
-  | .realloc p _old new dest sid =>
+  | .realloc p old new dest sid =>
     if new = 0 then                                           -- aws_mem_realloc: release, *ptr = NULL
       match s.release p with
       | (s', .unit) => (s', .ptr 0)
@@ -220,12 +239,14 @@ def Seq.step (s : Seq) : Op → Seq × Ret
     else if p = 0 then
       -- s_trace_mem_realloc(NULL, old, new): untrack(NULL); parent realloc(NULL) = acquire; track
       if !freshAddr s.par dest then (s, .rejected)
-      else ({ tr := track (untrack s.tr 0) dest new sid, par := s.par.acquire dest new }, .ptr dest)
+      else ({ tr := track (untrack s.tr 0) dest new sid, par := s.par.reallocNull dest new }, .ptr dest)
     else if !s.par.live p then (s, .rejected)
-    else if dest ≠ p ∧ !freshAddr s.par dest then (s, .rejected)
+    else if (dest ≠ p ∧ !freshAddr s.par dest) ∨ !s.par.reallocOK p old new dest then (s, .rejected)
     else
       -- untrack(old_ptr); aws_mem_realloc(parent, &new_ptr, old, new); track(new_ptr, new_size)
-      ({ tr := track (untrack s.tr p) dest new sid, par := s.par.realloc p new dest }, .ptr dest)
+      -- (the inner call goes to the wrapped allocator's vtable, or to the acquire/release emulation
+      --  on the wrapped allocator — never back through the tracer)
+      ({ tr := track (untrack s.tr p) dest new sid, par := s.par.realloc p old new dest }, .ptr dest)
   | .dump => (s, .dumped s.tr.dumpOut)
   | .fill p seed => ({ s with par := s.par.fill p seed }, .unit)
 
@@ -239,14 +260,14 @@ def Parent.stepDirect (par : Parent) : Op → Parent × Ret
     if n = 0 ∨ sz = 0 ∨ n * sz ≥ W ∨ !freshAddr par dest then (par, .rejected) else (par.calloc dest n sz, .ptr dest)
   | .release p =>
     if p = 0 then (par, .unit) else if !par.live p then (par, .rejected) else (par.release p, .unit)
-  | .realloc p _ new dest _ =>
+  | .realloc p old new dest _ =>
     if new = 0 then
       if p = 0 then (par, .ptr 0) else if !par.live p then (par, .rejected) else (par.release p, .ptr 0)
     else if p = 0 then
-      if !freshAddr par dest then (par, .rejected) else (par.acquire dest new, .ptr dest)
+      if !freshAddr par dest then (par, .rejected) else (par.reallocNull dest new, .ptr dest)
     else if !par.live p then (par, .rejected)
-    else if dest ≠ p ∧ !freshAddr par dest then (par, .rejected)
-    else (par.realloc p new dest, .ptr dest)
+    else if (dest ≠ p ∧ !freshAddr par dest) ∨ !par.reallocOK p old new dest then (par, .rejected)
+    else (par.realloc p old new dest, .ptr dest)
   | .dump => (par, .unit)
   | .fill p seed => (par.fill p seed, .unit)
 
@@ -396,13 +417,16 @@ def advance (sh : Sh) (o : Addr) : PC → Option (Sh × PC)
   | .unt (.remove _) a g k => some ({ sh with tr := removeAlloc sh.tr a }, .unt .unlock a g k)
   | .unt .unlock a _ k => some ({ sh with lock := false }, afterUntrack a k)
   | .parFree a => some ({ sh with par := sh.par.release a }, .done)
-  | .parRealloc a _ new sid =>
+  | .parRealloc a old new sid =>
+    -- the inner aws_mem_realloc on the wrapped allocator (native, or emulated by acquire+release:
+    -- both parent calls are taken as one action, no tracer state is touched between them)
     if a = 0 then
       if !freshAddr sh.par o then none
-      else some ({ sh with par := sh.par.acquire o new }, .trk .add o new sid 0)
-    else if o = a then some ({ sh with par := sh.par.realloc a new a }, .trk .add a new sid 0)
+      else some ({ sh with par := sh.par.reallocNull o new }, .trk .add o new sid 0)
+    else if !sh.par.reallocOK a old new o then none
+    else if o = a then some ({ sh with par := sh.par.realloc a old new a }, .trk .add a new sid 0)
     else if !freshAddr sh.par o then none
-    else some ({ sh with par := sh.par.realloc a new o }, .trk .add o new sid 0)
+    else some ({ sh with par := sh.par.realloc a old new o }, .trk .add o new sid 0)
   | .ro .load k =>
     -- aws_mem_tracer_bytes: the load is the whole call; dump: return early when nothing is allocated
     if k = .bytes ∨ sh.tr.level = .none ∨ sh.tr.allocated = 0 then some (sh, .done) else some (sh, .ro .lock k)
@@ -425,8 +449,10 @@ def step (s : Sys) : Act → Sys
 
 def run (s : Sys) (as : List Act) : Sys := as.foldl step s
 
-def Sys.init (lvl : Level) (frames : Nat) : Sys :=
-  { sh := { tr := Tracer.new lvl frames, par := ⟨[]⟩, lock := false, owned := [] }, pool := [] }
+/-- `hr` / `hc`: the wrapped allocator implements `mem_realloc` / `mem_calloc` -/
+def Sys.init (lvl : Level) (frames : Nat) (hr hc : Bool := true) : Sys :=
+  { sh := { tr := Tracer.new lvl frames, par := { blocks := [], hasRealloc := hr, hasCalloc := hc }, lock := false, owned := [] },
+    pool := [] }
 
 /-- the system in which nobody is inside the allocator, built from a sequential state -/
 def Sys.ofSeq (s : Seq) (owned : List (Addr × Nat)) : Sys :=
